@@ -89,3 +89,73 @@ Theorem C03_io_refinement_cseg : forall dt nc g scales ops k c,
     end.
 Proof. exact io_refinement_cseg. Qed.
 Print Assumptions C03_io_refinement_cseg.
+
+(* ---- several handles on one dataset ("by the same or a freshly opened handle") ---- *)
+From NGS Require Import PioHandles PioHandlesProofs LinkHandles.
+
+(* invariant of every reachable state: as long as no initialisation overwrites
+   an existing info (get_IO_for_new_dataset refuses that by default), every
+   live PrecomputedIO object describes the dataset exactly as the stored info *)
+Theorem C03_handles_agree :
+  forall (info chunk bytes : Type) scales_of check_info encode decode ops (st : hstate info bytes),
+  Forall (no_overwrite info chunk) ops -> agree info bytes st ->
+  agree info bytes (fst (hrun info chunk bytes scales_of check_info encode decode st ops)).
+Proof. exact hrun_agree. Qed.
+Print Assumptions C03_handles_agree.
+
+(* refinement: the chunk files after a multi-handle history are those of the
+   single-description model (C03_io_refinement) run on the projected history *)
+Theorem C03_handles_refine :
+  forall (info chunk bytes : Type) scales_of check_info encode decode ops (st : hstate info bytes) i,
+  Forall (no_overwrite info chunk) ops -> agree info bytes st -> h_info st = Some i ->
+  h_info (fst (hrun info chunk bytes scales_of check_info encode decode st ops)) = Some i /\
+  h_chunks (fst (hrun info chunk bytes scales_of check_info encode decode st ops))
+  = fst (run chunk bytes (encode i) (decode i) (scales_of i) (h_chunks st)
+           (proj info chunk check_info i (length (h_handles st)) ops)).
+Proof. exact hrun_refines_run. Qed.
+Print Assumptions C03_handles_refine.
+
+(* a read through ANY live handle returns the last chunk written through ANY
+   handle (same object, another object, one opened later from the stored info) *)
+Theorem C03_handles_read_last_written :
+  forall (info chunk bytes : Type) scales_of check_info encode decode (shape_of : chunk -> triple)
+         ops (st : hstate info bytes) i h j k c,
+  (forall k ch b, encode i k ch = Ok b -> decode i k b (shape_of ch) = Ok ch) ->
+  Forall (no_overwrite info chunk) ops -> Forall (hwell_shaped info chunk shape_of) ops ->
+  agree info bytes st -> h_info st = Some i -> h_chunks st = [] ->
+  nth_error (h_handles (fst (hrun info chunk bytes scales_of check_info encode decode st ops))) h = Some j ->
+  check_valid (scales_of i) k c = Ok tt ->
+  read_chunk chunk bytes (decode j) (scales_of j)
+    (h_chunks (fst (hrun info chunk bytes scales_of check_info encode decode st ops))) k c
+  = match last_written chunk bytes (encode i) (scales_of i)
+            (proj info chunk check_info i (length (h_handles st)) ops) k c None with
+    | Some ch => Ok ch
+    | None => AccessErr
+    end.
+Proof. exact handles_read_last_written. Qed.
+Print Assumptions C03_handles_read_last_written.
+
+(* closed instance: per-scale raw / compressed_segmentation codecs of C10 / C02 *)
+Theorem C03_handles_codecs :
+  forall (check : dinfo -> outcome unit) ops (st : hstate dinfo (list N)) i h j k c,
+  d_isz i <> 0%N ->
+  Forall (no_overwrite dinfo arr4) ops -> Forall (hwell_shaped dinfo arr4 arr_shape) ops ->
+  agree dinfo (list N) st -> h_info st = Some i -> h_chunks st = [] ->
+  nth_error (h_handles (fst (hrun dinfo arr4 (list N) d_scales_of check d_encode d_decode st ops))) h = Some j ->
+  check_valid (d_scales_of i) k c = Ok tt ->
+  read_chunk arr4 (list N) (d_decode j) (d_scales_of j)
+    (h_chunks (fst (hrun dinfo arr4 (list N) d_scales_of check d_encode d_decode st ops))) k c
+  = match last_written arr4 (list N) (d_encode i) (d_scales_of i)
+            (proj dinfo arr4 check i (length (h_handles st)) ops) k c None with
+    | Some a => Ok a
+    | None => AccessErr
+    end.
+Proof. exact handles_read_last_written_codecs. Qed.
+Print Assumptions C03_handles_codecs.
+
+(* the hypothesis cannot be dropped, and the default second initialisation is refused *)
+Example C03_overwrite_breaks_agreement :
+  let st := fst (hrun nat nat nat (fun _ => []) (fun _ => Ok tt) (fun _ _ x => Ok x) (fun _ _ x _ => Ok x)
+                   (h_empty nat nat) [HNew nat nat 1%nat false; HNew nat nat 2%nat true]) in
+  h_info st = Some 2%nat /\ h_handles st = [1%nat; 2%nat] /\ ~ agree nat nat st.
+Proof. exact overwrite_breaks_agreement. Qed.
